@@ -270,6 +270,9 @@ def corruptions():
     add("From", "legacy types()", "enum E { #[from(types(u8))] A(u16), B(u8, u8) }")
     add("From", "tuple arity", "#[from((u8, u8, u8))] struct S(u16, u16);")
     add("From", "not a tuple for two fields", "#[from(u8)] struct S(u16, u16);")
+    # the item position of an ENUM: the documentation places `#[from(..)]` on variants; on the enum itself it means nothing
+    for arg in ("(forward)", "(u8)", "(skip)", "", "(types(u8))", "(forward, u8)"):
+        add("From", "attribute on the enum itself", "#[from%s] enum E { A(u16), B }" % arg)
     add("From", "union", "union U { a: u8 }")
     add("From", "name-value form", '#[from = "u8"] struct S(u8);')
     # ---- Into
@@ -584,7 +587,9 @@ def run(chk, tier):
             continue
         if r["k"] == "ok":
             chk.outcome("corruption-accepted")
-            chk.violation("silently accepted: %s (%s)" % (cls, d), item, "the derive expanded without a diagnostic")
+            # known finding: `#[from(..)]` on an enum ITEM is never looked at (the repository's own tests/generics.rs writes it)
+            kid = "c17-from-attribute-on-enum-item-ignored" if (d == "From" and cls.startswith("attribute on the enum itself")) else None
+            chk.violation("silently accepted: %s (%s)" % (cls, d), item, "the derive expanded without a diagnostic", known_id=kid)
         else:
             chk.outcome("corruption-" + r["k"])
             chk.violation("corruption handled by %s: %s (%s)" % (r["k"], cls, d), item, r.get("msg", "")[:200] + " " + r.get("loc", ""))
